@@ -556,6 +556,20 @@ func runE2E(cfg hx.Config, meta *hx.Meta) ([]string, error) {
 	witness := "package a\n\ntype S1 []int\n\ntype S2 []int\n\ntype T struct {\n\tX []int\n}\n\nfunc f(a, b S1, c, d S2, e, g *T) bool {\n\treturn deriveEqualS1(a, b) && deriveEqualS2(c, d) && deriveEqualT(e, g)\n}\n"
 	mods := make([]map[string]string, 0, nmod+1)
 	mods = append(mods, map[string]string{"a/a.go": witness, "b/b.go": strings.Replace(witness, "package a", "package b", 1)})
+	// regression corpus: every sub-directory of corpus/C08 is a package `a` (a copy is package b)
+	if ents, err := os.ReadDir(cfg.Corpus); err == nil {
+		for _, e := range ents {
+			if !e.IsDir() {
+				continue
+			}
+			src, err := os.ReadFile(filepath.Join(cfg.Corpus, e.Name(), "a.go"))
+			if err != nil {
+				continue
+			}
+			mods = append(mods, map[string]string{"a/a.go": string(src), "b/b.go": strings.Replace(string(src), "package a", "package b", 1)})
+		}
+	}
+	ncorpus := len(mods)
 	for i := 0; i < nmod; i++ {
 		rr := r.Fork(uint64(i))
 		m := map[string]string{
@@ -679,8 +693,8 @@ func runE2E(cfg hx.Config, meta *hx.Meta) ([]string, error) {
 		meta.Packages += len(pkgs)
 		for _, p := range pkgs {
 			cls := "generated"
-			if mi == 0 {
-				cls = "witness-S1-S2"
+			if mi < ncorpus {
+				cls = "corpus-witness"
 			}
 			lines = append(lines, fmt.Sprintf("(runs %s %d %d)", cls, len(variants), len(seen[p])))
 			meta.Count(fmt.Sprintf("e2e/%s package: %d invocations", cls, len(variants)))
